@@ -244,6 +244,7 @@ func (e *Engine) globalFuncInit(g *ssa.Global) *ssa.Function {
 	if g.Pkg == nil {
 		return nil
 	}
+	g.Pkg.Build() // idempotent; dependency packages are otherwise left unbuilt
 	init := g.Pkg.Func("init")
 	if init == nil {
 		return nil
